@@ -179,7 +179,15 @@ def run_case(emit, cid, cs, rng, sample):
             viols.append(_v(case, "history-has-non-finite-entry", "obj_out=%s" % small(obj, 6)))
     # ---- stopping value on tolerance exit
     two_sided = None
-    if stop <= tol and case.solver_name != "PDCD_WS" and np.all(np.isfinite(w)):
+    measurable = True
+    if case.strategy == "fixpoint" and case.ref_pen.kind in ("mcp", "wmcp", "scad", "bmcp", "bscad"):
+        # outside the well-posed step range the reference has no prox-gradient residual to compare with
+        try:
+            L = case.ref.hess_lipschitz(w) if case.solver_name == "ProxNewton" else case.ref.lipschitz()
+            measurable = bool(np.all(L > 0)) and all(case.ref_pen.admissible_step(1.0 / L[j], j) for j in range(len(L)))
+        except Exception:
+            measurable = False
+    if stop <= tol and case.solver_name != "PDCD_WS" and np.all(np.isfinite(w)) and measurable:
         cert, per, ib = case.certificate(w)
         cu = float(np.max(per)) if per is not None and len(per) else cert
         cands = [cert]
